@@ -469,3 +469,45 @@ def notify_fails_only_behind_the_gate(chk, ctx):
                key="StateEngine.notify | handle_error under `%s` is reached before the termination gate" % (arm[0] if arm else "-"), where=se.line(c),
                message="an event of a terminated branch whose state cannot be found (dangling Next; a definition updated while the event was queued) fails the fan-out and ends the "
                        "already FAILED execution a second time: two ExecutionFailed events, two notifications, the recorded error overwritten")
+
+
+# ---------------------------------------------------------------------------------------------------------------------
+# C20.R11 / C04.R9 (D72, open): the JSON store never truncates its only copy: a function that rewrites self.json_store writes a sibling file and
+# renames it over the old one (os.replace / os.rename), it does not open the store file itself for writing.
+def json_store_rewrite_is_atomic(chk, ctx, rule):
+    st = ctx.mod("store")
+    n = 0
+    for q, f in sorted(st.funcs.items()):
+        if not q.startswith("JSONStore."):
+            continue
+        for c in _walk_no_nested(f.node):
+            if isinstance(c, ast.Call) and callname(c) == "open" and len(c.args) >= 2 and isinstance(const(c.args[1]), str) and any(m in const(c.args[1]) for m in "wa+"):
+                n += 1
+                direct = norm(c.args[0]) == "self.json_store"
+                renames = any(isinstance(x, ast.Call) and callname(x) in ("os.replace", "os.rename") for x in _walk_no_nested(f.node))
+                chk.ob(rule, "%s: the store file is replaced atomically, not truncated in place" % q, (not direct) or renames, "",
+                       key="%s | opens its only copy (`%s`) for writing: the file is truncated before the new content is written" % (q, norm(c)), where=st.line(c),
+                       message="a crash (or a full disk) while json.dump is streaming leaves an empty or half-written file; on restart an invalid file opens as an EMPTY store: "
+                               "every definition that had been persisted is lost, not only the one being written")
+    chk.floor(rule, n, 1, "writes of the JSON store file")
+
+
+# C20.R12 (D73, open): a dotted version string is compared component-wise, not after its dots have been deleted ("5.0.14" -> 5014 >= 600).
+def version_compared_componentwise(chk, ctx):
+    st = ctx.mod("store")
+    n = 0
+    for q, f in sorted(st.funcs.items()):
+        for s in _walk_no_nested(f.node):
+            if isinstance(s, ast.Assign) and isinstance(s.value, ast.Call) and callname(s.value) == "int" and s.value.args:
+                a = s.value.args[0]
+                if isinstance(a, ast.Call) and isinstance(a.func, ast.Attribute) and a.func.attr == "replace" and a.args and const(a.args[0]) == "." and len(a.args) > 1 and const(a.args[1]) == "" \
+                        and "version" in norm(a.func.value):
+                    n += 1
+                    chk.ob("C20.R12", "%s: the server version is compared component-wise" % q, False, "",
+                           key="%s | `%s`: the dots of a version string are deleted before it is compared" % (q, norm(s)), where=st.line(s),
+                           message="'5.0.14' becomes 5014, which passes the `< 600` test meant for 6.0.0: CLIENT TRACKING is sent to a server that rejects it, and later calls fill and "
+                                   "serve a cache that nothing ever invalidates (a stale cached view)")
+    cmps = [c for q, f in st.funcs.items() for c in _walk_no_nested(f.node) if isinstance(c, ast.Compare) and "redis_version" in norm(c)]
+    chk.floor("C20.R12", len(cmps), 1, "tests of the Redis server version")
+    if not n:
+        chk.ob("C20.R12", "the Redis server version is not derived by deleting the dots of the version string", True, "")
